@@ -588,30 +588,47 @@ class AsyncFIXConnection:
         Args:
             resend_msg: ResendRequest(35=2) FIXMessage
         """
+        assert resend_msg.msg_type == FMsg.RESENDREQUEST
+
+        begin_seq_no = int(resend_msg[FTag.BeginSeqNo])
+        end_seq_no = int(resend_msg[FTag.EndSeqNo])
+
+        # Remember next_num_out
+        current_next_num_out = self._session.next_num_out
+
+        if end_seq_no == 0 or end_seq_no >= current_next_num_out:
+            # up to the last message sent
+            end_seq_no = current_next_num_out - 1
+
+        if begin_seq_no < 1 or begin_seq_no > end_seq_no:
+            # Nothing was sent in this range (or EndSeqNo < BeginSeqNo)
+            self.log.warning(
+                f"Invalid ResendRequest range {begin_seq_no}-{end_seq_no}, last sent"
+                f" MsgSeqNum={current_next_num_out - 1}, ignored"
+            )
+            return
+
         if self._connection_state != ConnectionState.RESENDREQ_AWAITING:
             await self._state_set(ConnectionState.RESENDREQ_HANDLING)
 
-        assert resend_msg.msg_type == FMsg.RESENDREQUEST
         assert self._connection_state in {
             ConnectionState.RESENDREQ_HANDLING,
             ConnectionState.RESENDREQ_AWAITING,
         }
 
-        begin_seq_no = int(resend_msg[FTag.BeginSeqNo])
-        end_seq_no = int(resend_msg[FTag.EndSeqNo])
-        if end_seq_no == 0:
-            end_seq_no = sys.maxsize
         self.log.info("Received resent request from %s to %s", begin_seq_no, end_seq_no)
         journal_replay_msgs = self._journaler.recover_messages(
             self._session, MessageDirection.OUTBOUND, begin_seq_no, end_seq_no
         )
-
-        # Remember next_num_out
-        current_next_num_out = self._session.next_num_out
+        # Messages after requested range (cleaned from the journal by seq num rewind)
+        journal_tail_msgs = []
+        if end_seq_no + 1 < current_next_num_out:
+            journal_tail_msgs = self._journaler.recover_messages(
+                self._session, MessageDirection.OUTBOUND, end_seq_no + 1, sys.maxsize
+            )
 
         self._journaler.set_seq_num(self._session, next_num_out=begin_seq_no)
         gap_fill_begin = int(begin_seq_no)
-        gap_fill_end = int(begin_seq_no)
 
         noreply_msgs = {
             FMsg.LOGON,
@@ -622,52 +639,49 @@ class AsyncFIXConnection:
             FMsg.SEQUENCERESET,
         }
 
+        async def send_gap_fill(seq_from: int, seq_to: int):
+            gap_fill_msg = FIXMessage(FMsg.SEQUENCERESET)
+            gap_fill_msg[FTag.GapFillFlag] = "Y"
+            gap_fill_msg[FTag.MsgSeqNum] = seq_from
+            gap_fill_msg[FTag.NewSeqNo] = seq_to
+            await self.send_msg(gap_fill_msg)
+
         for enc_msg in journal_replay_msgs:
             replay_msg, _, _ = self._codec.decode(enc_msg, silent=False)
             msg_seq_num = int(replay_msg[FTag.MsgSeqNum])
 
             is_sess_msg = replay_msg[FTag.MsgType] in noreply_msgs
             if is_sess_msg or not await self.should_replay(replay_msg):
-                gap_fill_end = msg_seq_num + 1
-            else:
-                if gap_fill_begin < gap_fill_end:
-                    # we need to send a gap fill message
-                    gap_fill_msg = FIXMessage(FMsg.SEQUENCERESET)
-                    gap_fill_msg[FTag.GapFillFlag] = "Y"
-                    gap_fill_msg[FTag.MsgSeqNum] = gap_fill_begin
-                    gap_fill_msg[FTag.NewSeqNo] = str(gap_fill_end)
-                    # breakpoint()
-                    await self.send_msg(gap_fill_msg)
+                # covered by the next gap fill
+                continue
 
-                # and then resent the replayMsg
-                replay_msg[FTag.PossDupFlag] = "Y"
+            if gap_fill_begin < msg_seq_num:
+                # session / skipped / missing messages before this one
+                await send_gap_fill(gap_fill_begin, msg_seq_num)
+
+            # and then resent the replayMsg (it may be resent already)
+            replay_msg.set(FTag.PossDupFlag, "Y", replace=True)
+            if FTag.OrigSendingTime not in replay_msg:
                 replay_msg[FTag.OrigSendingTime] = replay_msg[FTag.SendingTime]
-                del replay_msg[FTag.MsgType]
-                del replay_msg[FTag.BeginString]
-                del replay_msg[FTag.BodyLength]
-                del replay_msg[FTag.SendingTime]
-                del replay_msg[FTag.SenderCompID]
-                del replay_msg[FTag.TargetCompID]
-                del replay_msg[FTag.CheckSum]
-                await self.send_msg(replay_msg)
+            del replay_msg[FTag.MsgType]
+            del replay_msg[FTag.BeginString]
+            del replay_msg[FTag.BodyLength]
+            del replay_msg[FTag.SendingTime]
+            del replay_msg[FTag.SenderCompID]
+            del replay_msg[FTag.TargetCompID]
+            del replay_msg[FTag.CheckSum]
+            await self.send_msg(replay_msg)
 
-                gap_fill_begin = msg_seq_num + 1
+            gap_fill_begin = msg_seq_num + 1
 
-        if gap_fill_end < gap_fill_begin:
-            self.log.warning(
-                "Journal MsgSeqNum not reflecting last"
-                f" next_num_out={current_next_num_out}, forcing reset."
+        # Remainder of the requested range
+        if gap_fill_begin <= end_seq_no:
+            await send_gap_fill(gap_fill_begin, end_seq_no + 1)
+
+        for enc_msg in journal_tail_msgs:
+            self._journaler.persist_msg(
+                enc_msg, self._session, MessageDirection.OUTBOUND
             )
-
-        assert gap_fill_end <= current_next_num_out, "Unexpected end for gap"
-
-        # Remainder not available in some reason
-        if gap_fill_begin < current_next_num_out:
-            gap_fill_msg = FIXMessage(FMsg.SEQUENCERESET)
-            gap_fill_msg[FTag.GapFillFlag] = "Y"
-            gap_fill_msg[FTag.MsgSeqNum] = gap_fill_begin
-            gap_fill_msg[FTag.NewSeqNo] = current_next_num_out
-            await self.send_msg(gap_fill_msg)
 
         self._journaler.set_seq_num(self._session, next_num_out=current_next_num_out)
 
